@@ -121,3 +121,54 @@ Example f6_repaired_example :
   m_answer (fresh all_fix (pcurrent w_F6_now)) 0 "/p" = Some 0 /\
   t_answer (t_prun true all_fix w_F6_now) 0 "/p" = Some 0.
 Proof. vm_compute. repeat split; reflexivity. Qed.
+
+Theorem f6_node_has_one_source ops : pwf ops = true ->
+  forall q n x y, get (index (prun true all_fix ops)) q = Some n -> In x (vals n) -> In y (vals n) -> rt_src x = rt_src y.
+Proof. intro W. rewrite prun_san. apply now_node_has_one_source; [exact W | apply guard_dupid_san]. Qed.
+
+(** key names and captured values too (findNode as transcribed with them in
+    Radix/Tree.v, run on the tree of C06/Tree.v) *)
+Theorem f6_tree_captures_equal_fresh ops : pwf ops = true -> pdirty ops = [] ->
+  forall path (conditions : Radix.Spec.matcher route),
+    Radix.Tree.tree_find true true true conditions (TreeBridge.emb (index (t_prun true all_fix ops))) path =
+    Radix.Tree.tree_find true true true conditions
+      (TreeBridge.emb (index (t_run_fx all_fix (fresh_ops (pcurrent ops))))) path.
+Proof.
+  intros W D. rewrite t_prun_san. apply tree_captures_equal_fresh; [exact W | apply guard_dupid_san | exact D].
+Qed.
+
+(** without the check ([f6] = false) the layer is the bare repository *)
+Lemma prun_false fx ops : prun false fx ops = run fx ops.
+Proof. reflexivity. Qed.
+
+(** ** witnesses for the system as it is now *)
+
+Local Open Scope string_scope.
+
+Lemma w_F1_f6 : pwf w_F1 = true /\ guard_F1 w_F1 = true /\ pdirty w_F1 = [0] /\
+  m_answer (prun true all_fix w_F1) 0 "/x" = Some 10 /\ m_answer (fresh all_fix (pcurrent w_F1)) 0 "/x" = Some 1.
+Proof. vm_compute. repeat split; reflexivity. Qed.
+
+Lemma w_F2_f6 : pwf w_F2 = true /\ guard_F2 w_F2 = true /\ pdirty w_F2 = [0; 0; 0] /\
+  m_answer (prun true all_fix w_F2) 0 "/y" = Some 20 /\ m_answer (fresh all_fix (pcurrent w_F2)) 0 "/y" = None.
+Proof. vm_compute. repeat split; reflexivity. Qed.
+
+(** a refused update (duplicate id) between accepted operations: it leaves no trace *)
+Definition w_refused : list op :=
+  [Add 0 [mkd 0 0 false [] ["/p"]; mkd 1 0 false [0] ["/q/:p1"]];
+   Update 0 [mkd 0 1 false [] ["/p"]; mkd 0 9 false [] ["/r"]];
+   Add 1 [mkd 0 0 false [] ["/r"]];
+   Update 0 [mkd 0 1 false [] ["/p"]; mkd 1 0 false [0] ["/q/:p1"]; mkd 2 0 false [] ["/s"]];
+   Update 1 [mkd 0 0 false [] ["/r"]; mkd 0 0 false [] ["/r"]];
+   Delete 1].
+
+Lemma w_refused_ok : pwf w_refused = true /\ pdirty w_refused = [] /\ guard_dupid w_refused = true /\
+  length (pcurrent w_refused) = 1 /\ length (index (prun true all_fix w_refused)) = 3 /\
+  snd (pstep true all_fix (prun true all_fix (firstn 1 w_refused)) (nth 1 w_refused (Delete 0))) = Some ELoad /\
+  m_answer (prun true all_fix (firstn 2 w_refused)) 0 "/p" = Some 0 /\
+  m_answer (prun true all_fix w_refused) 0 "/p" = Some 1 /\ m_answer (prun true all_fix w_refused) 0 "/r" = None.
+Proof. vm_compute. repeat split; reflexivity. Qed.
+
+Lemma w_main_f6 : pwf w_plain = true /\ pdirty w_plain = [] /\ pwf w_reset = true /\ pdirty w_reset = [] /\
+  pwf w_now = true /\ pdirty w_now = [].
+Proof. vm_compute. repeat split; reflexivity. Qed.
